@@ -77,6 +77,9 @@ func (r NodeRequest) Verify(sig string) error {
 	// crypto.Sign produces a signature in the form [R || S || V] (65 bytes)
 	// where V is 0 or 1 and crypto.VerifySignature wants [R || S] (64 bytes).
 	// ¯\_(ツ)_/¯
+	if len(sigbytes) < 64 {
+		return ErrBadSignature
+	}
 	sigbytes = sigbytes[:64]
 
 	hashed, err := r.hash()
